@@ -29,7 +29,7 @@ from mir import Unsupported  # noqa: E402
 
 REPO = os.environ.get("VERIF_REPO", "/repo")
 SCRATCH = os.environ.get("VERIF_SCRATCH", "/var/tmp/clap-verif")
-FEATURES = "std,help,usage,error-context,wrap_help"
+FEATURES = "std,help,usage,error-context,wrap_help,env"
 HT = "help_template::<impl at clap_builder/src/output/help_template.rs"
 
 
